@@ -296,12 +296,17 @@ class FHDUList(Foreign):
             for h in self.hdus:
                 if isinstance(h.name, str) and h.name.upper() == key.upper():
                     return h
+            if any(not isinstance(h, FHDU) or not isinstance(h.name, (str, type(None))) for h in self.hdus) or getattr(self, 'incomplete', False):
+                return Unk('extension %r: the file holds parts that were not modelled' % key)          # it may be one of those
             raise PyRaise('KeyError', "Extension %r not found" % key)
         return NotImplemented
 
     def sl_method(self, interp, name, args, kw, node):
         if name == 'append' and args and isinstance(args[0], FHDU):
             self.hdus.append(args[0])
+            return None
+        if name in ('append', 'insert', 'extend'):
+            self.incomplete = True          # something that is not a modelled HDU was put into the file
             return None
         if name == 'writeto' and args:
             self.written_to = args[0]
